@@ -6,9 +6,15 @@
   and memory contents by structural induction with adversarial memory (`Always`), so it holds
   for sequential runs (`get_class_admissible`) and for every interleaving with any number of
   other threads doing anything to the shared metadata (`get_class_admissible_conc`).
+
+  * `class_decisions_match_source` — the tree-entry transitions that decide classes (`steal`,
+    `reserve_or_steal`, `unreserve_add`) are re-derived from the Rust source on every run by the
+    translator (`tools/rs2lean.py`, `Gen/Tree.lean`) and proved equal to the model's
+    (`Proofs/GenTree.lean`).
 -/
 import LLFreeV.Proofs.ClassAdm
 import LLFreeV.Model.Policies
+import LLFreeV.Proofs.GenTree
 namespace LLFree.C13
 open LLFree
 
@@ -73,5 +79,18 @@ example : Adm (simplePolicy 2048) 1 0 ∧ ¬ Adm (simplePolicy 2048) 0 1 := by
     · cases h
     · simp [simplePolicy, orderedPolicy] at h
     · simp [simplePolicy, orderedPolicy] at h
+
+/-- **The class decisions of the model are those of the current source.** `Gen/Tree.lean` is
+    regenerated from `impl Tree` of `core/src/trees.rs` on every run; for every entry, request class,
+    amount and policy the regenerated `steal`, `reserve_or_steal` and `unreserve_add` produce the
+    same new entry (in particular the same class), the same refusal, and panic exactly when the
+    model's transition does (bit-field ranges: a tree has fewer than 2^28 frames, class ids have 3 bits). -/
+theorem class_decisions_match_source (tf : Nat) (self : Tree) (free cls dflt : Nat) (policy : PolicyFn)
+    (htf : tf < 2 ^ 28) (hc : cls < 8) (hs : self.cls < 8) (hf : self.free < 2 ^ 28) :
+    GenTree.Sim (GenTree.ofRO (Gen.T.steal self cls free policy)) (Upd.ofOption (Tree.steal self cls free policy)) ∧
+    GenTree.Sim (GenTree.ofRO (Gen.T.reserveOrSteal tf self free policy cls)) (Tree.reserveOrSteal tf self free policy cls) ∧
+    GenTree.Sim (GenTree.ofRO (Gen.T.unreserveAdd tf self free cls policy dflt)) (Tree.unreserveAdd tf self free cls policy dflt) :=
+  ⟨GenTree.steal_eq self cls free policy hc hs hf, GenTree.reserveOrSteal_eq tf self free policy cls htf hf,
+    GenTree.unreserveAdd_eq tf self free cls policy dflt htf hs⟩
 
 end LLFree.C13
